@@ -61,7 +61,11 @@ class Prop(BaseProp):
         def mkparam(r, uid, j, kind):
             core = f"pN{uid}Z{j}"
             fam = FAMILIES[pat[kind]]
-            form = r.choice(["id", "id", "id", "quoted", "ref", "bracket", "nomatch", "whole"])
+            form = r.choice(["id", "id", "id", "quoted", "ref", "bracket", "nomatch", "whole", "backslash"])
+            if form == "backslash":
+                # escape sequences inside a parameter: the heading shows them as written
+                w = r.choice([core + "\\;x", core + "\\ y", '"say \\"' + core + '\\""', core + "\\(z\\)", "\\$" + core])
+                return w, w
             if form == "nomatch":
                 return core, core
             if form == "whole" and pat[kind]:
